@@ -66,6 +66,9 @@ func (b *Bundle) NameFeature(class, role string) {
 
 var CollisionKinds = []string{"exact", "case", "several", "generatedName", "oaigenTaken", "oaigen1Taken", "paramsBodyTaken", "twoImportsSameName", "caseTwinsInline", "prefixNames", "anonPointerNameTaken", "anonPointerSymbolsKey", "opKeyTwins", "opKeyTwinsWithID", "dupOperationIds", "prefixNamesRemoteRecursive"}
 
+// KeywordNames: definition and property names that are also keywords of the schema model or words the namer treats specially.
+var KeywordNames = []string{"schema", "not", "anyOf", "oneOf", "allOf", "properties", "items", "additionalProperties", "definitions", "parameters", "responses", "paths", "body", "default", "0"}
+
 // Collision plants a name collision pattern. Imported definitions that collide are $ref-free.
 func (b *Bundle) Collision(kind string) {
 	b.Tag("collision:" + kind)
@@ -421,6 +424,50 @@ func (b *Bundle) UnusedLinks(kinds []string, cycle bool) {
 	}
 }
 
+// KeywordName plants a definition (and a property) named like a keyword, holding complex inline schemas under
+// each holder keyword (a name that is also a key word of the pointer grammar must not change how the key is read).
+func (b *Bundle) KeywordName(name, holder string) {
+	b.Tag("cell:keyword-name/" + name + "/" + holder)
+	inner := b.Obj()
+	b.Def(name, b.Hold(holder, inner, 1, name))
+	op := b.Op(b.newPath(), Pick(b.rng, MethodsAll), true)
+	jx.AsObj(op["responses"])["200"] = jx.Obj{"description": b.lbl("kw"), "schema": jx.Obj{"$ref": "#/definitions/" + jx.EscTok(name)}}
+	// the same name as a property holding a complex schema, in a response
+	b.Place("codeResponse", jx.Obj{"type": "object", "description": b.lbl("kwp"), "properties": jx.Obj{name: b.Hold(holder, b.Obj(), 1, name)}}, "")
+}
+
+// RefSiblings plants a schema that has a $ref AND a sibling keyword which itself holds a $ref to a definition that
+// nothing else refers to, next to a twin without the sibling. A resolver ignores the siblings of a $ref, the document
+// still contains them: the definition they refer to is in use.
+func (b *Bundle) RefSiblings(sibling, where string) {
+	b.Tag("cell:ref-siblings/" + sibling + "/" + where)
+	k := strconv.Itoa(b.id())
+	b.Def("Party"+k, b.Obj())
+	b.Def("Addr"+k, b.Obj())
+	inner := jx.Obj{"$ref": "#/definitions/Addr" + k}
+	withSib := jx.Obj{"$ref": "#/definitions/Party" + k}
+	switch sibling {
+	case "properties":
+		withSib["properties"] = jx.Obj{"address": inner}
+	case "items":
+		withSib["items"] = inner
+	case "allOf":
+		withSib["allOf"] = jx.Arr{inner}
+	case "additionalProperties":
+		withSib["additionalProperties"] = inner
+	}
+	twin := jx.Obj{"$ref": "#/definitions/Party" + k}
+	switch where {
+	case "defProperty":
+		n := "Order" + k
+		b.Def(n, jx.Obj{"type": "object", "description": b.lbl("rs"), "properties": jx.Obj{"buyer": twin, "seller": withSib}})
+		op := b.Op(b.newPath(), Pick(b.rng, MethodsAll), true)
+		jx.AsObj(op["responses"])["200"] = jx.Obj{"description": b.lbl("u"), "schema": jx.Obj{"$ref": "#/definitions/" + n}}
+	default:
+		b.Place(where, jx.Obj{"type": "object", "description": b.lbl("rs"), "properties": jx.Obj{"buyer": twin, "seller": withSib}}, "")
+	}
+}
+
 // Files renders the bundle: every document in spec-model normal form, canonical key order.
 func (b *Bundle) Files(nf func(jx.Obj) jx.Obj) map[string]string {
 	out := map[string]string{"root.json": string(jx.Canon(nf(b.Root)))}
@@ -499,6 +546,18 @@ func sysSpecs() []sysSpec {
 				b.UnusedLinks(ks, cyc)
 				b.Plant("property", "codeResponse", "localDef", 1)
 			})
+		}
+	}
+	for _, n := range KeywordNames {
+		for _, h := range []string{"property", "not", "allOf", "items", "additionalProperties", "tuple"} {
+			n, h := n, h
+			add(fmt.Sprintf("keyword-name/%s/%s", n, h), func(b *Bundle) { b.Tag("extended"); b.KeywordName(n, h) })
+		}
+	}
+	for _, sib := range []string{"properties", "items", "allOf", "additionalProperties"} {
+		for _, wh := range []string{"defProperty", "codeResponse", "opParam", "sharedResponse"} {
+			sib, wh := sib, wh
+			add(fmt.Sprintf("ref-siblings/%s/%s", sib, wh), func(b *Bundle) { b.RefSiblings(sib, wh) })
 		}
 	}
 	for _, k := range CollisionKinds {
